@@ -495,6 +495,7 @@ func (e *Engine) runPath(h *Harness, solver *smt.Solver, fallback func(string) *
 		execFns: map[*ssa.Function]int{}, modelFns: map[*ssa.Function]int{}}
 	out = &pathOutcome{Path: p, status: "completed"}
 	solver.Reset()
+	defer p.killCo()
 	defer func() {
 		if r := recover(); r != nil {
 			switch r := r.(type) {
